@@ -109,6 +109,7 @@ def class_tables(model, sx, cls):
     prefix = {}
     multiple = set()
     rec_paths = []
+    foreign = set()            # lists appended to that are not entries of time_variables
     raises = [o for o in outs if o.kind == 'raise']
     for o in outs:
         if o.kind == 'raise':
@@ -123,6 +124,8 @@ def class_tables(model, sx, cls):
                 if mm:
                     key = mm.group(1)
                     v = e[2][0] if e[2] else None
+                else:
+                    foreign.add(str(e[1])[:-len('.append')])
             elif e[0] == 'setitem' and 'time_variables' in str(e[1]) and isinstance(e[3], Tv) and len(e[3].items) == 1:
                 key = str(e[2]).strip("'")
                 v = e[3].items[0]
@@ -135,6 +138,7 @@ def class_tables(model, sx, cls):
                 multiple.add(k)
             rec.setdefault(k, []).append(list(o.state.guards))
         rec_paths.append((list(o.state.guards), set(counts)))
+    prefix['<foreign>'] = sorted(foreign)
     return m, mu, adv, all_ctor_paths, rec, rec_paths, vals, multiple, raises, prefix
 
 
@@ -160,7 +164,15 @@ def check_classes(model, rep):
             rep.cannot('C17.guards', cls, str(e))
             continue
         rep.inspect(len(ctor_paths) + len(rec_paths))
+        foreign = prefix.pop('<foreign>', [])
+        for f in foreign:
+            rep.violation('C17.one', f'{cls}.update_time_variables', f'a sample is appended to `{f}`, which is not an entry of time_variables looked up '
+                          f'at the call: Powertrain.reset rebinds every entry to a fresh list, after which such a list is no longer the one '
+                          f'that snapshot / export read', mu.loc)
         keys = sorted(set(adv) | set(rec))
+        if model.find_member(cls, 'pwm') is not None and 'pwm' not in keys:
+            rep.violation('C17.guards', f'{cls}[pwm]', 'the motor has a duty cycle but update_time_variables records no `pwm` sample into time_variables',
+                          mu.loc)
         for key in keys:
             cons = f'{cls}[{key}]'
             if key == 'pwm':
